@@ -668,3 +668,85 @@ Proof.
     - intros i p Hp. apply nth_init_procs in Hp as (c & Ec & _). eauto. }
   exact (proj1 Hm).
 Qed.
+
+(* ---------- part 7 (C09): concurrent builders ---------- *)
+(* whenever a process is about to load the binary, the binary is complete *)
+Lemma load_sees_complete owner cfgs s0 sched i c b :
+  finals_ok s0 -> fresh_temps owner cfgs s0 -> stages_bin cfgs ->
+  let st := sys_run {| s_fs := s0; s_procs := init_procs cfgs |} sched in
+  nth_error cfgs i = Some c ->
+  nth_error (s_procs st) i = Some (PLoad b) ->
+  lookup (F b) (s_fs st) = Complete.
+Proof.
+  intros Hf Hfr Hb st Hc Hp.
+  assert (Hg : goal_inv cfgs st).
+  { apply (goal_inv_run owner); [now apply sys_inv_init|now apply goal_inv_init]. }
+  specialize (Hg i c _ Hc Hp). cbn in Hg. destruct Hg as [-> Hg]. exact Hg.
+Qed.
+
+Lemma measure_zero p : measure p = 0%nat -> p = PDone.
+Proof. destruct p as [st b|ph n k todo b|b|]; cbn; try lia; auto; destruct ph; lia. Qed.
+
+Lemma measure_decr_step st i j p :
+  nth_error (s_procs st) j = Some p ->
+  exists p', nth_error (s_procs (sys_step st i)) j = Some p' /\
+             (measure p' <= measure p - (if Nat.eqb i j then 1 else 0))%nat.
+Proof.
+  intros E. destruct (Nat.eqb_spec i j) as [->|Hij].
+  - rewrite (sys_step_nth st j p E).
+    destruct (proc_step (s_fs st) p) as [[s' p'] o] eqn:Es. cbn [fst snd].
+    exists p'. split; [reflexivity|].
+    destruct p as [sg b|ph m k todo b|b|].
+    1-3: (assert (measure p' < measure _)%nat by (eapply measure_step; [|exact Es]; discriminate); lia).
+    cbn in Es. inversion Es; subst. cbn. lia.
+  - exists p. split; [|lia]. unfold sys_step.
+    destruct (nth_error (s_procs st) i) as [q|] eqn:Ei; [|exact E].
+    destruct (proc_step (s_fs st) q) as [[s' q'] o]. cbn [s_procs].
+    now rewrite nth_error_upd_neq by exact Hij.
+Qed.
+
+Lemma measure_decr_run sched j : forall st p,
+  nth_error (s_procs st) j = Some p ->
+  exists p', nth_error (s_procs (sys_run st sched)) j = Some p' /\
+             (measure p' <= measure p - count_occ Nat.eq_dec sched j)%nat.
+Proof.
+  induction sched as [|i sched IH]; intros st p E.
+  - exists p. split; [exact E|cbn; lia].
+  - cbn [sys_run fold_left]. fold (sys_run (sys_step st i) sched).
+    destruct (measure_decr_step st i j p E) as (p1 & E1 & H1).
+    destruct (IH _ p1 E1) as (p2 & E2 & H2). exists p2. split; [exact E2|].
+    cbn [count_occ]. destruct (Nat.eq_dec i j) as [->|Hne].
+    + rewrite Nat.eqb_refl in H1. lia.
+    + apply Nat.eqb_neq in Hne. rewrite Hne in H1. lia.
+Qed.
+
+(* every process that is scheduled often enough finishes, with a complete binary, whatever
+   the other processes do in between *)
+Lemma all_succeed owner cfgs s0 sched j c :
+  finals_ok s0 -> fresh_temps owner cfgs s0 -> stages_bin cfgs ->
+  nth_error cfgs j = Some c ->
+  (fuel_for (fst c) <= count_occ Nat.eq_dec sched j)%nat ->
+  let st := sys_run {| s_fs := s0; s_procs := init_procs cfgs |} sched in
+  nth_error (s_procs st) j = Some PDone /\ lookup (F (snd c)) (s_fs st) = Complete.
+Proof.
+  intros Hf Hfr Hb Hc Hcnt st.
+  pose proof (nth_init_procs_some cfgs j c Hc) as E0.
+  destruct (measure_decr_run sched j {| s_fs := s0; s_procs := init_procs cfgs |} _ E0) as (p & Ep & Hm).
+  assert (p = PDone).
+  { apply measure_zero. cbn [measure] in Hm. unfold fuel_for in Hcnt. lia. }
+  subst p. split; [exact Ep|].
+  apply (finished_has_binary owner cfgs s0 sched j c PDone); auto. exact I.
+Qed.
+
+(* once the binary is there, a new build only loads it: nothing is created, nothing compiled *)
+Lemma run_alone_PDone fuel s : run_alone fuel s PDone = (s, PDone, []).
+Proof. destruct fuel; reflexivity. Qed.
+
+Lemma cache_reused s st bin :
+  lookup (F bin) s = Complete -> emitted s st bin = [ORead (F bin)].
+Proof.
+  intros H. unfold emitted, fuel_for.
+  replace (5 * length st + 3)%nat with (S (S (5 * length st + 1))) by lia.
+  generalize (5 * length st + 1)%nat as n. intros n.
+  cbn. unfold present. rewrite H. cbn. rewrite run_alone_PDone. reflexivity.
+Qed.
